@@ -48,7 +48,7 @@ theorem wide_prims :
       ("sqrt", "$ty::sqrt(self)"),
       ("cbrt", "let mut array = self.into_array(); for scalar in &mut array { *scalar = scalar.cbrt(); } array.into()"),
       ("powf", "$ty::$pow_self(self, exp)"),
-      ("powi", "if exp < 0 { exp = exp.wrapping_neg(); self = self.recip(); } Powu::powu(self, exp as u32)"),
+      ("powi", "if exp < 0 { exp = exp.wrapping_neg(); self = Recip::recip(self); } Powu::powu(self, exp as u32)"),
       ("exp", "$ty::exp(self)"),
       ("hypot", "(self * self + other * other).sqrt()"),
       ("round", "$ty::round(self)"),
@@ -56,7 +56,7 @@ theorem wide_prims :
       ("ceil", "let mut array = self.into_array(); for scalar in &mut array { *scalar = scalar.ceil(); } array.into()"),
       ("mul_add", "$ty::mul_add(self, m, a)"),
       ("mul_sub", "$ty::mul_sub(self, m, s)"),
-      ("ln", "self.ln()")] ∧
+      ("ln", "let mut array = self.into_array(); for scalar in &mut array { *scalar = scalar.ln(); } array.into()")] ∧
     Gen.SimdScan.wideAnglePrimBodies = [
       ("degrees_to_radians", "self.to_radians()"),
       ("radians_to_degrees", "self.to_degrees()"),
